@@ -29,12 +29,12 @@ func (i Infra) Error() string { return i.Err.Error() }
 func infra(format string, a ...interface{}) error { return Infra{fmt.Errorf(format, a...)} }
 
 type Finding struct {
-	ID        string `json:"id"`
-	Property  string `json:"property"`
-	Deviation string `json:"deviation"`
-	Status    string `json:"status"` // open | fixed
-	Commit    string `json:"commit,omitempty"`
-	What      string `json:"what"`
+	ID        string          `json:"id"`
+	Property  string          `json:"property"`
+	Deviation string          `json:"deviation"`
+	Status    string          `json:"status"` // open | fixed
+	Commit    string          `json:"commit,omitempty"`
+	What      string          `json:"what"`
 	Witness   json.RawMessage `json:"witness,omitempty"`
 }
 
